@@ -52,12 +52,14 @@ from __future__ import annotations
 
 import copy
 import json
+import random
 
 import core
 from props import c08 as base
+from props import c10_life as life
 
 LEVEL = "proof"
-EXTRA_TARGETS = ["model/IterFinTie.vo", "model/DrawUseTie.vo"]
+EXTRA_TARGETS = ["model/IterFinTie.vo", "model/DrawUseTie.vo", "model/IterCtorTie.vo", "model/FinNestTie.vo"]
 
 N = ["next"]
 KINDS = {0: "StopIteration", 1: "RuntimeError", 2: "AttributeError", 3: "KeyError", 4: "ValueError",
@@ -462,13 +464,23 @@ IMPL_TIMEOUT = 900  # per driver process; the thorough tier raises it (a loaded 
 
 def evaluate(cases, tag="c10"):
     """cases may carry "enumerate"; returns (variants, codes, errors, observations)"""
+    from concurrent.futures import ThreadPoolExecutor
+
     # one driver process per CPU (start-up dominates); cases dealt round-robin so that the expensive
-    # (enumerated) ones spread evenly
-    order = sorted(range(len(cases)), key=lambda i: (i % core.NCPU, i))
-    dealt = core.run_impl_parallel("impl_c10.py", [cases[i] for i in order], timeout=IMPL_TIMEOUT)
+    # (enumerated) ones spread evenly; the two drivers run side by side
+    def deal(script, idxs):
+        order = sorted(range(len(idxs)), key=lambda i: (i % core.NCPU, i))
+        dealt = core.run_impl_parallel(script, [cases[idxs[i]] for i in order], timeout=IMPL_TIMEOUT)
+        return [(idxs[i], g) for i, g in zip(order, dealt)]
+
+    old_i = [i for i, c in enumerate(cases) if not life.is_life(c)]
+    new_i = [i for i, c in enumerate(cases) if life.is_life(c)]
     groups = [None] * len(cases)
-    for i, g in zip(order, dealt):
-        groups[i] = g
+    with ThreadPoolExecutor(max_workers=2) as ex:
+        futs = [ex.submit(deal, "impl_c10.py", old_i), ex.submit(deal, "impl_c10_life.py", new_i)]
+        for f in futs:
+            for i, g in f.result():
+                groups[i] = g
     variants, obs = [], []
     for g in groups:
         for v, r in g:
@@ -477,33 +489,32 @@ def evaluate(cases, tag="c10"):
     codes = [0] * len(variants)
     errors = []
     ii = [k for k, v in enumerate(variants) if is_iter(v)]
-    oi = [k for k, v in enumerate(variants) if not is_iter(v) and not is_session(v) and not is_drawio(v)]
+    oi = [k for k, v in enumerate(variants) if not is_iter(v) and not is_session(v) and not is_drawio(v)
+          and not life.is_life(v)]
     si = [k for k, v in enumerate(variants) if is_session(v)]
     di = [k for k, v in enumerate(variants) if is_drawio(v)]
+    jobs = life.jobs(variants, obs, tag)
     if di:
-        res, errs = core.coq_shards(tag + "d", DHEADER, [dcase_t(variants[k], obs[k]) for k in di], "dcase",
-                                    "dbad10 cases", shard=max(200, -(-len(di) // 8)))
-        errors += errs
-        for idx, code in res:
-            codes[di[idx]] = code
+        jobs.append(((tag + "d", DHEADER, [dcase_t(variants[k], obs[k]) for k in di], "dcase",
+                      "dbad10 cases", max(200, -(-len(di) // 8))), di))
     if si:
-        res, errs = core.coq_shards(tag + "s", HEADER, [scase_t(variants[k], obs[k]) for k in si], "scase",
-                                    "sbad10 cases", shard=120)
-        errors += errs
-        for idx, code in res:
-            codes[si[idx]] = code
+        jobs.append(((tag + "s", HEADER, [scase_t(variants[k], obs[k]) for k in si], "scase", "sbad10 cases", 120), si))
     if ii:
-        res, errs = core.coq_shards(tag + "i", HEADER, [fcase_t(variants[k], obs[k]) for k in ii], "fcase",
-                                    "bad10 cases", shard=max(120, -(-len(ii) // 10)))
-        errors += errs
-        for idx, code in res:
-            codes[ii[idx]] = code
+        jobs.append(((tag + "i", HEADER, [fcase_t(variants[k], obs[k]) for k in ii], "fcase",
+                      "bad10 cases", max(120, -(-len(ii) // 10))), ii))
     if oi:
-        res, errs = core.coq_shards(tag + "o", HEADER, [ocase_t(variants[k], obs[k]) for k in oi], "ocase",
-                                    "obad10 cases", shard=120)
-        errors += errs
-        for idx, code in res:
-            codes[oi[idx]] = code
+        jobs.append(((tag + "o", HEADER, [ocase_t(variants[k], obs[k]) for k in oi], "ocase", "obad10 cases", 120), oi))
+
+    def judge(job):
+        (pre, header, terms, typ, expr, shard), idxs = job
+        res, errs = core.coq_shards(pre, header, terms, typ, expr, shard=shard)
+        return idxs, res, errs
+
+    with ThreadPoolExecutor(max_workers=max(1, len(jobs))) as ex:
+        for idxs, res, errs in ex.map(judge, jobs):
+            errors += errs
+            for idx, code in res:
+                codes[idxs[idx]] = code
     return variants, codes, errors, obs
 
 
@@ -529,6 +540,8 @@ def describe_drawio(c):
 
 
 def describe(c):
+    if life.is_life(c):
+        return life.describe(c)
     if is_drawio(c):
         return describe_drawio(c)
     if is_iter(c):
@@ -566,6 +579,8 @@ DSIG_KEYS = ("mode", "op", "n", "total", "loops", "cache", "animate", "rfault", 
 
 
 def signature(c):
+    if life.is_life(c):
+        return core.sig(life.plain(c))
     if is_drawio(c):
         return core.sig({k: c.get(k) for k in DSIG_KEYS})
     d = {k: c.get(k) for k in SIG_KEYS}
@@ -579,6 +594,8 @@ def signature(c):
 
 
 def plain(c):
+    if life.is_life(c):
+        return life.plain(c)
     return {k: v for k, v in c.items() if k not in ("enumerate", "enumerate_fin", "enumerate_io", "enumerate_async",
                                                     "async_offset")}
 
@@ -658,7 +675,7 @@ def shrink_session(c):
 
 
 def simplified(c):
-    if is_session(c) or is_drawio(c):
+    if is_session(c) or is_drawio(c) or life.is_life(c):
         return plain(c)
     flt = dict(c.get("faults") or {})
     if is_iter(c):
@@ -687,6 +704,8 @@ def simplified(c):
 
 
 def what_of(c, r, code):
+    if life.is_life(c):
+        return life.what_of(c, r)
     if is_drawio(c):
         ev = [f"{HOOKS.get(e[0], e[0])}(finalized={bool(e[1])})" for e in r.get("events", [])]
         bad = [x for x, e in zip(ev, r.get("events", [])) if e[1]]
@@ -735,30 +754,50 @@ def run(ctx):
         n_one = 70 if ctx.quick else 1000
         n_sess = 50 if ctx.quick else 900
         n_dio = 30 if ctx.quick else 500
+        n_ctor = 60 if ctx.quick else 700
+        n_nest = 150 if ctx.quick else 2500
         corpus = [copy.deepcopy(c) for c in ITER_CORPUS + ONESHOT_CORPUS + SESSION_CORPUS + DRAWIO_CORPUS]
+        corpus += life.ctor_corpus() + life.nest_corpus()
         n_corpus = len(corpus)
         cases = corpus + [gen_iter(rng, i, ctx.quick) for i in range(n_iter)] \
             + [gen_oneshot(rng, i) for i in range(n_one)] + [gen_session(rng, i) for i in range(n_sess)] \
             + [gen_drawio(rng, i, ctx.quick) for i in range(n_dio)]
+        # the later families draw from generators of their own, so that the cases above stay what they were
+        rng2 = random.Random(rng.random())
+        cases += [life.gen_ctor(rng2, i, ctx.quick) for i in range(n_ctor)] \
+            + [life.gen_nest(rng2, i, ctx.quick) for i in range(n_nest)]
     variants, codes, errors, obs = evaluate(cases)
 
     failing = [k for k, code in enumerate(codes) if code >= 2]
     failures = []
     if failing:
-        chosen = [variants[k] for k in failing[:40]]
+        pick = failing[:40]
+        for fam in (life.is_ctor, life.is_nest):  # one of each later family, if it failed at all
+            k = next((k for k in failing if fam(variants[k])), None)
+            if k is not None and k not in pick:
+                pick.append(k)
+        chosen = [variants[k] for k in pick]
         # cheap reduction first, one batch: the default configuration with the same constructor kind, the same
         # fault and just enough `next` operations to reach it (one-shot: the default case of the mode)
         simple = [simplified(c) for c in chosen]
         verdict = fails_spec(simple)
-        has_simple = any(v and not is_session(s) and not is_drawio(s) for s, v in zip(simple, verdict))
+        has_simple = any(v and not is_session(s) and not is_drawio(s) and not life.is_life(s)
+                         for s, v in zip(simple, verdict))
         first_session = next((k for k, c in enumerate(chosen) if is_session(c)), None)
         first_drawio = next((k for k, c in enumerate(chosen) if is_drawio(c)), None)
+        first_ctor = next((k for k, c in enumerate(chosen) if life.is_ctor(c)), None)
+        first_nest = next((k for k, c in enumerate(chosen) if life.is_nest(c)), None)
         minimal, budget = [], (0 if has_simple else 1)
         for k, (c, s, v) in enumerate(zip(chosen, simple, verdict)):
             if k == first_session:
                 minimal.append(shrink_session(c))
             elif k == first_drawio:
                 minimal.append(shrink_drawio(c))
+            elif k in (first_ctor, first_nest):
+                minimal.append(life.shrink(c, fails_spec))
+            elif life.is_life(c):
+                if sum(1 for m in minimal if m.get("mode") == c["mode"]) < 4:  # a few more, as they came
+                    minimal.append(s)
             elif v:
                 minimal.append(s)
             elif budget > 0:
@@ -795,7 +834,10 @@ def run(ctx):
         h[k][v] = h[k].get(v, 0) + 1
 
     nontrivial = set()
+    life.histogram(h, nontrivial, variants, obs, signature)
     for c, r in zip(variants, obs):
+        if life.is_life(c):
+            continue
         inc("frame_count", "INDEFINITE" if c["n"] is None else c["n"])
         flt = c.get("faults") or {}
         for k, v in flt.items():
@@ -913,6 +955,8 @@ def run(ctx):
     samples += [describe(v) for v in variants if is_session(v)][-1:]
     samples += [describe(v) for v in variants if is_drawio(v) and v.get("io_fault")][3:4]
     samples += [describe(v) for v in variants if is_drawio(v) and v.get("async") is not None][-1:]
+    samples += [describe(v) for v in variants if life.is_ctor(v) and v.get("async") is not None][-1:]
+    samples += [describe(v) for v in variants if life.is_nest(v)][-2:]
     return {
         "corr_name": "life of render data on the real RenderIterator / render() / str() / draw() over the "
                      "instrumented renderable VR10 == finalisation ghost of the Iter model (check10 / ocheck10 bit 1); "
